@@ -268,10 +268,19 @@ def op_code(op, T, like):
 CACHED_SITE_KINDS = {"setlen", "badlen", "stores", "deletes"}
 
 
+def js_create(l):
+    c = l.get("c", "lit")
+    if c == "new":
+        return "new Array(%s)" % js_list(l["els"])
+    if c == "len":
+        return "new Array(%d)" % l["n"]
+    return js_arr_lit(l["els"])
+
+
 def prefix_code(var, prefix, proxy=False):
     """Straight-line code (every code site executed once, so no inline-cache hit) that builds the state reached by
     `prefix` in variable `var`, without printing."""
-    lit = js_arr_lit(prefix[0]["op"]["els"])
+    lit = js_create(prefix[0]["op"])
     body = ["%s = %s; PR = NOP;" % (var, ("new Proxy(%s, H)" % lit) if proxy else lit)]
     for st in prefix[1:]:
         body.append("CUR = %s; try { %s } catch (e) {}" % (var, op_code(st["op"], var, False)))
@@ -423,7 +432,8 @@ def oracle(histories):
     path = os.path.join(vlib.WORK, "c14-oracle-%d.ndjson" % os.getpid())
     with open(path, "w") as f:
         for ops in histories:
-            f.write(json.dumps({"lit": ops[0]["els"], "ops": ops[1:]}) + "\n")
+            l = ops[0]
+            f.write(json.dumps({"lit": {"c": l.get("c", "lit"), "els": l["els"], "n": l.get("n", 0)}, "ops": ops[1:]}) + "\n")
     r, out = emit("MCArrayOracle.cfg", 4, 900, env_extra={"HISTS": path},
                   module=os.path.join(vlib.SPEC, "objects", "MCArrayOracle.tla"))
     os.unlink(path)
@@ -463,13 +473,19 @@ def shrink_candidates(ops):
     for i in range(len(rest) - 1):
         c.append([lit] + rest[:i] + rest[i + 1:])
     els = lit["els"]
-    if els:
-        c.append([{"k": "lit", "els": []}] + rest)
+
+    def mk(e):
+        return {"k": "lit", "c": "lit", "els": e, "n": 0}
+
+    if lit.get("c", "lit") != "lit":
+        c.append([mk(els if lit["c"] == "new" else ["hole"] * lit["n"])] + rest)
+    elif els:
+        c.append([mk([])] + rest)
         for i in range(len(els)):
-            c.append([{"k": "lit", "els": els[:i] + els[i + 1:]}] + rest)
+            c.append([mk(els[:i] + els[i + 1:])] + rest)
         for i, e in enumerate(els):
             if e not in ("i1", "hole"):
-                c.append([{"k": "lit", "els": els[:i] + ["i1"] + els[i + 1:]}] + rest)
+                c.append([mk(els[:i] + ["i1"] + els[i + 1:])] + rest)
     return c
 
 
@@ -648,7 +664,7 @@ def check_linear(binary, model_hists, stats):
 def random_histories(rng, lits, ops, count, length):
     out = []
     for _ in range(count):
-        out.append([{"k": "lit", "els": rng.choice(lits)}] + [rng.choice(ops) for _ in range(length)])
+        out.append([rng.choice(lits)] + [rng.choice(ops) for _ in range(length)])
     return out
 
 
@@ -715,7 +731,7 @@ def run(tier, replay=None):
     # ---- seeded long histories: TLC -simulate (depth 15) and random histories evaluated by TLC in oracle mode
     sim_count = 0
     if tier == "thorough":
-        lits = [n["h"][0]["op"]["els"] for n in all_nodes if len(n["h"]) == 1]
+        lits = [n["h"][0]["op"] for n in all_nodes if len(n["h"]) == 1]
         alphabet = {}
         for nd in all_nodes:
             for st in nd["steps"]:
